@@ -354,8 +354,10 @@ class PLSSDesc:
         # Preprocessed description set to .orig_desc until parsed.
         self.pp_desc = self.orig_desc
 
-        # If layout was specified as kwarg, use that:
-        self.layout = layout
+        # If layout was specified as kwarg, use that (overriding any
+        # layout that was specified in `config`):
+        if layout is not None:
+            self.layout = layout
         # Track whether the layout was dictated by the user.
         self.layout_specified = False
         if self.layout is not None:
@@ -675,6 +677,11 @@ class PLSSDesc:
 
         if segment is None:
             segment = self.segment
+
+        if layout is None:
+            # Fall back to the layout specified at init or in config,
+            # if any. (If still None, it will be deduced.)
+            layout = self.layout
 
         if layout == COPY_ALL:
             # Segmenting the whole description would defy the point of
